@@ -47,12 +47,23 @@ def _run_pool(jobs: List[Tuple[str, str, Any]], procs: int, timeout: float) -> L
             j = futs[f]
             out.append((j[1], {"shard": "?", "crash": f"shard exceeded the {timeout:.0f}s wall budget", "timeout": True}))
     finally:
-        for p_ in list(getattr(ex, "_processes", {}).values()):
+        clean = len(out) == len(jobs) and not any(r.get("died") or r.get("timeout") for _, r in out)
+        if clean:
             try:
-                p_.kill()
+                ex.shutdown(wait=True)
             except Exception:
                 pass
-        ex.shutdown(wait=False, cancel_futures=True)
+        else:
+            # a hung or dead worker: do not wait for it
+            for p_ in list((getattr(ex, "_processes", None) or {}).values()):
+                try:
+                    p_.kill()
+                except Exception:
+                    pass
+            try:
+                ex.shutdown(wait=False, cancel_futures=True)
+            except Exception:
+                pass
     return out
 
 
